@@ -141,6 +141,12 @@ Theorem C10_holds : forall c, valid c -> holds c (run_model c) = [].
 Proof. intros c Hv. rewrite (model_is_spec c Hv). apply holds_spec. Qed.
 Print Assumptions C10_holds.
 
+Lemma C10_validb_valid c : validb c = true -> valid c.
+Proof. unfold validb, valid. intros H. now apply negb_true_iff in H. Qed.
+Theorem C10_covered_cases : forall c, validb c = true -> holds c (run_model c) = [].
+Proof. intros c H. apply C10_holds. now apply C10_validb_valid. Qed.
+Print Assumptions C10_covered_cases.
+
 (* ---- the behaviour before fix 8c5a0ab (D6): the port is dropped from the server address ---- *)
 Definition LO6 : bytes := [58; 58; 49]%N.                        (* "::1" *)
 Definition ANY6 : bytes := [58; 58]%N.                           (* "::"  *)
